@@ -1,7 +1,7 @@
 """C24 helper: render a case of spec/Unitary.tla to Guppy source and observe /repo's verdict.
 
 A case is the JSON form of the TLA+ record
-  [ctx |-> [kind, deco, alias, outer, inner], call |-> [kind, flags, args, pos], con |-> construct]
+  [ctx |-> [kind, deco, alias, levels], call |-> [kind, flags, args, pos], con |-> construct]
 The renderer is the (trusted) projection spec case -> concrete program; the *verdict* is
 never computed here - it comes from TLC.
 """
@@ -35,7 +35,9 @@ def deco(head: str, flags, alias: bool = False) -> str:
 
 
 def declarations() -> str:
-    out = ["@guppy.declare\ndef cl(x: bool) -> None: ...\n"]
+    out = ["@guppy.declare\ndef cl(x: bool) -> None: ...\n",
+           "@guppy.declare(unitary=True)\ndef u2(x: qubit, y: bool) -> None: ...\n",
+           "@guppy.declare(unitary=True)\ndef u3(y: bool, x: qubit) -> None: ...\n"]
     for F in SUBSETS:
         n = fid(F)
         d = deco("guppy.declare", F)
@@ -50,7 +52,7 @@ def declarations() -> str:
 
 
 ARGS = {"q": "q", "c": "n", "qc": "q, n", "arr": "qs"}
-PARAMS = ("q: qubit, qs: array[qubit, 2], n: int, b: bool, k: nat, "
+PARAMS = ("q: qubit, r: qubit, qs: array[qubit, 2], n: int, b: bool, k: nat, "
           + ", ".join(f"c{i}: qubit" for i in range(1, NCTRL + 1))
           + ", fq: Callable[[qubit], bool], fc: Callable[[int], bool]")
 
@@ -78,6 +80,8 @@ def call_stmts(call: dict) -> list[str]:
     return {
         "stmt": [e],
         "nested_arg": [f"cl({e})"],
+        "arg_after_qubit": [f"u2(r, {e})"],
+        "arg_before_qubit": [f"u3({e}, r)"],
         "if_cond": [f"if {e}:", "    pass"],
         "while_cond": [f"while {e}:", "    pass"],
         "ifexp_cond": [f"cl(b if {e} else b)"],
@@ -115,12 +119,11 @@ def with_items(stack: list[str], first_ctrl: int, variant: int) -> tuple[str, in
 
 def case_key(case: dict) -> str:
     c, k = case["ctx"], case["call"]
-    if c["kind"] == "deco":
-        cx = "deco[" + ("unitary" if c["alias"] else fid(c["deco"])) + "]"
-    elif c["kind"] == "with":
-        cx = "with[" + ",".join(c["inner"]) + "]"
-    else:
-        cx = "with[" + ",".join(c["outer"]) + "]>with[" + ",".join(c["inner"]) + "]"
+    parts = []
+    if c["deco"] or not c["levels"]:
+        parts.append("deco[" + ("unitary" if c["alias"] else fid(c["deco"])) + "]")
+    parts += ["with[" + ",".join(lv) + "]" for lv in c["levels"]]
+    cx = ">".join(parts)
     cl = "nocall" if k["kind"] == "none" else f"{k['kind']}[{fid(k['flags'])}]({k['args']})@{k['pos']}"
     return f"{cx} {cl} {case['con']}"
 
@@ -139,15 +142,13 @@ def render_test(case: dict, name: str, seed: int = 0) -> str:
     if not body:
         body = ["pass"]
     ind = lambda ls, n: ["    " * n + l for l in ls]  # noqa: E731
-    if ctx["kind"] == "deco":
-        lines = [deco("guppy", ctx["deco"], ctx["alias"]), f"def {name}({PARAMS}) -> None:"] + ind(body, 1)
-    elif ctx["kind"] == "with":
-        items, _ = with_items(ctx["inner"], 1, v)
-        lines = ["@guppy", f"def {name}({PARAMS}) -> None:", f"    with {items}:"] + ind(body, 2)
-    else:
-        o, c = with_items(ctx["outer"], 1, v)
-        i, _ = with_items(ctx["inner"], c, v >> 2)
-        lines = ["@guppy", f"def {name}({PARAMS}) -> None:", f"    with {o}:", f"        with {i}:"] + ind(body, 3)
+    lines = [deco("guppy", ctx["deco"], ctx["alias"]), f"def {name}({PARAMS}) -> None:"]
+    c, depth = 1, 1
+    for lv in ctx["levels"]:
+        items, c = with_items(lv, c, v >> (depth - 1))
+        lines.append("    " * depth + f"with {items}:")
+        depth += 1
+    lines += ind(body, depth)
     return "\n".join(lines) + "\n"
 
 
